@@ -1073,6 +1073,16 @@ def expand_case(draw):
         s = draw(G.rat_expr(draw(st.integers(2, 3)), mixed=draw(st.integers(0, 3)) == 0,
                             np_consts=False, avoid_known=avoid, max_exp=3,
                             opaque=draw(st.integers(0, 4)) == 0))
+    if draw(st.integers(0, 5)) == 0:
+        # several integer powers of one and the same sum, in falling, rising or mixed
+        # order, as terms or as factors (what a power cache inside the mapper would see)
+        base = draw(G.poly_expr(1, max_exp=1, avoid_known=True, powpow=False))
+        if base[0] != "Sum":
+            base = ["Sum", [base, ["Var", draw(st.sampled_from(G.VARS))]]]
+        ks = draw(st.lists(st.sampled_from((1, 2, 2, 3, 3, 4)), min_size=2, max_size=3))
+        pws = [["Power", base, ["Const", "int", k]] for k in ks]
+        s = [draw(st.sampled_from(("Sum", "Sum", "Product"))), pws + (
+            [s] if draw(st.booleans()) else [])]
     m = draw(st.integers(0, 9))
     mode = "expand" if m <= 5 else ("distribute", "params", "params", "noncommutative")[m - 6]
     out = {"expr": s, "mode": mode}
